@@ -56,7 +56,8 @@ NextSym == \E n \in Nat, learn \in BOOLEAN, w \in Int : w >= 1 /\ w < M /\ Input
 
 Spec == Init /\ [][Next]_vars
 
-TypeInv == /\ win >= 0 /\ pend >= 0 /\ rx >= 0 /\ acked >= 0 /\ emitted >= -1 /\ wcall >= 0
+TypeInv == /\ known \in BOOLEAN /\ win \in Int /\ pend \in Int /\ rx \in Int /\ acked \in Int /\ emitted \in Int /\ wcall \in Int
+           /\ win >= 0 /\ pend >= 0 /\ rx >= 0 /\ acked >= 0 /\ emitted >= -1 /\ wcall >= 0
            /\ (known => win >= 1) /\ win < M /\ wcall < M
 
 \* property C17
